@@ -1258,6 +1258,8 @@ func runC12(r *Rng, tier string, n int) {
 	runPoison(r, tier)
 	runDecorated(r, tier)
 	runMultiHomed(r, tier)
+	runSessions(r, tier)
+	runKeptWriters(r, tier)
 	runDeadlines(r, tier)
 	stat["retain_gen_retry"] = int(genRetries.Load())
 	Stat(stat)
